@@ -239,19 +239,21 @@ Definition post_grant (pc : spc) : Prop := pc = VWoken ∨ pc = VSessAdd ∨ pc 
 Lemma key_of_thr_lock s w t sid n k z lt : v_thr s !! w = Some t → st_op t = SLock sid n k z lt → key_of_thr s w = k.
 Proof. unfold key_of_thr. by intros -> ->. Qed.
 
-(** a key becomes live only by the grant to its own call *)
-Lemma vstep_live_new cfg s it n k : SvInv cfg s → slive (vstep cfg s it) n k →
-  slive s n k ∨ ∃ tid t sid z, v_thr s !! tid = Some t ∧ acquirer t sid n k z ∧ pre_grant (st_pc t).
+(** a key becomes live only by the grant to its own call: at that call's own step, or by a hand-over to it while parked *)
+Lemma vstep_live_new' cfg s it n k : SvInv cfg s → slive (vstep cfg s it) n k →
+  slive s n k ∨ ∃ tid t sid z, v_thr s !! tid = Some t ∧ acquirer t sid n k z ∧
+     ((it = VRun tid ∧ (st_pc t = VMgrTry ∨ st_pc t = VMgrLock)) ∨
+      (st_pc t = VWait ∧ (∃ lt, st_op t = SLock sid n k z lt) ∧ ∃ tr ttr n' k', it = VRun tr ∧ v_thr s !! tr = Some ttr ∧ releaser s ttr n' k')).
 Proof.
   intros HI. rewrite !slive_live_in.
-  destruct (vstep_lock_eff cfg s it (vi_not_crashed _ _ HI)) as [[-> _]|[(n0 & a' & z & -> & _ & Hl)|(tid & t & name & key & a & _ & Ht & Hrel & Ha & -> & _ & _)]]; [by left| |].
+  destruct (vstep_lock_eff cfg s it (vi_not_crashed _ _ HI)) as [[-> _]|[(n0 & a' & z & -> & _ & Hl)|(tid & t & name & key & a & Hit & Ht & Hrel & Ha & -> & _ & _)]]; [by left| |].
   - rewrite live_in_insert. intros [[-> Hk]|[_ ?]]; [|by left].
-    destruct Hl as [Hl|(tid & t & sid & k0 & lt & _ & Ht & Hop & Hl)]; rewrite Hl in Hk.
+    destruct Hl as [Hl|(tid & t & sid & k0 & lt & Hit & Ht & Hop & Hl)]; rewrite Hl in Hk.
     + left. destruct (v_locks s !! n0) as [a|] eqn:Ha; simpl in Hk; [by exists a|by apply elem_of_nil in Hk].
     + apply elem_of_app in Hk as [Hk|Hk%elem_of_list_singleton].
       * left. destruct (v_locks s !! n0) as [a|] eqn:Ha; simpl in Hk; [by exists a|by apply elem_of_nil in Hk].
       * subst k0. right. exists tid, t, sid, z. split; [done|].
-        destruct Hop as [[Hop Hpc]|[Hop Hpc]]; (split; [exists lt; eauto|rewrite Hpc; unfold pre_grant; eauto]).
+        destruct Hop as [[Hop Hpc]|[Hop Hpc]]; (split; [exists lt; eauto|left; split; [done|rewrite Hpc; eauto]]).
   - destruct (rel_state_locks tid name key a s) as (a' & -> & Hl & _). rewrite live_in_insert.
     intros [[-> Hk]|[_ ?]]; [|by left].
     destruct Hl as [[Hl _]|(w & q' & Hq & Hl & _)]; rewrite Hl in Hk.
@@ -260,7 +262,13 @@ Proof.
       * left. exists a. split; [done|]. by eapply elem_of_remove_first.
       * right. destruct (proj1 (vi_queue _ _ HI name a w Ha)) as (tw & sid & kw & z & lt & Htw & Hop & Hpc); [rewrite Hq; left|].
         rewrite (key_of_thr_lock _ _ _ _ _ _ _ _ Htw Hop) in Hk. subst kw.
-        exists w, tw, sid, z. split; [done|]. split; [exists lt; eauto|rewrite Hpc; unfold pre_grant; eauto].
+        exists w, tw, sid, z. split; [done|]. split; [exists lt; eauto|right; split; [done|split; [eauto|eauto 10]]].
+Qed.
+Lemma vstep_live_new cfg s it n k : SvInv cfg s → slive (vstep cfg s it) n k →
+  slive s n k ∨ ∃ tid t sid z, v_thr s !! tid = Some t ∧ acquirer t sid n k z ∧ pre_grant (st_pc t).
+Proof.
+  intros HI Hl. apply (vstep_live_new' cfg s it n k HI) in Hl as [?|(tid & t & sid & z & Ht & Hacq & Hpc)]; [by left|right].
+  exists tid, t, sid, z. split_and!; [done..|]. unfold pre_grant. naive_solver.
 Qed.
 
 (** a key stops being live only by a release step *)
@@ -311,4 +319,66 @@ Proof.
       assert (tid = w) as ->.
       { eapply (vi_keys_fresh _ _ HI tid w t tw k); try done; by rewrite ?Ho, ?Hop. }
       simplify_eq. congruence.
+Qed.
+
+(** ** a parked call moves to VWoken only when its key has been made live *)
+Lemma hand_over_woken name s0 x t t' :
+  v_thr s0 !! x = Some t → st_pc t ≠ VWoken → v_thr (hand_over name s0) !! x = Some t' → st_pc t' = VWoken →
+  ∃ a, v_locks s0 !! name = Some a ∧ x ∈ al_q a ∧ live_in (v_locks (hand_over name s0)) name (key_of_thr s0 x).
+Proof.
+  intros Hx Hpc. rewrite hand_over_eq. destruct (ho_grant name s0) as [[[a w] q']|] eqn:Hg; [|rewrite Hx; intros [= <-]; done].
+  apply ho_grant_some in Hg as (Ha & Hqa & _).
+  rewrite vemit_v_thr, vset_pc_lookup, vemit_v_locks, vset_pc_v_locks. simpl. case_decide; [subst x|rewrite Hx; intros [= <-]; done].
+  intros _ _. exists a. split; [done|]. split; [rewrite Hqa; left|].
+  apply live_in_insert. left. split; [done|]. simpl. apply elem_of_app. right. by apply elem_of_list_singleton.
+Qed.
+
+Lemma mgr_unlock_woken tid name key s x t t' :
+  v_thr s !! x = Some t → st_pc t ≠ VWoken → v_thr (mgr_unlock tid name key s).1 !! x = Some t' → st_pc t' = VWoken →
+  ∃ a, v_locks s !! name = Some a ∧ x ∈ al_q a ∧ live_in (v_locks (mgr_unlock tid name key s).1) name (key_of_thr s x).
+Proof.
+  intros Hx Hpc. unfold mgr_unlock. repeat case_match; simpl; try (rewrite Hx; intros [= <-]; done).
+  intros Hw1 Hw2. eapply hand_over_woken in Hw1 as (a' & Ha' & Hq' & Hl); [|exact Hx|done|done].
+  simpl in Ha'. rewrite lookup_insert in Ha'. simplify_eq. simpl in Hq'. eauto.
+Qed.
+
+Lemma vrun_thread_woken cfg tid t0 s x t t' : thr_bounded s → v_thr s !! tid = Some t0 → v_thr s !! x = Some t → st_pc t = VWait →
+  v_thr (vrun_thread cfg tid t0 s) !! x = Some t' → st_pc t' = VWoken →
+  ∃ n a, v_locks s !! n = Some a ∧ x ∈ al_q a ∧ live_in (v_locks (vrun_thread cfg tid t0 s)) n (key_of_thr s x).
+Proof.
+  intros Hb Ht0 Hx Hpc. assert (Hnw : st_pc t ≠ VWoken) by congruence.
+  destruct t0 as [op pc cn]. unfold vrun_thread. cbn [st_pc st_op st_cancel].
+  destruct (decide (x = tid)) as [->|Hne].
+  { simplify_eq. simpl in Hpc. subst pc. destruct op; try (rewrite Ht0; intros [= <-]; done).
+    repeat case_match; try (rewrite Ht0; intros [= <-]; done).
+    unfold vfinish. rewrite vemit_v_thr, vset_pc_lookup. case_decide; [|done]. simpl. rewrite Ht0. by intros [= <-]. }
+  destruct pc, op; try (rewrite Hx; intros [= <-]; congruence).
+  all: unfold vfinish.
+  all: repeat case_match; subst; pair_norm; rewrite ?vemit_v_thr, ?vset_pc_lookup_ne by done; try (rewrite Hx; intros [= <-]; congruence).
+  all: try (autorewrite with svframe; simpl; rewrite ?Hx; intros [= <-]; congruence).
+  all: try (intros Hw1 Hw2; eapply mgr_unlock_woken in Hw1 as (a' & ? & ? & ?); [|exact Hx|done|done]; eexists _, a'; split_and!; [done|done|by autorewrite with svframe]).
+  - (* woken call gives the unit back *)
+    intros Hw1 Hw2. eapply hand_over_woken in Hw1 as (a' & Ha' & Hq' & Hl); [|exact Hx|done|done].
+    simpl in Ha'. rewrite lookup_insert in Ha'. simplify_eq. simpl in Hq'. eexists _, _. split_and!; [eassumption|done|].
+    by autorewrite with svframe.
+  - (* network stop *)
+    match goal with |- context [fold_left _ ?l ?X] => destruct (spawn_all_thr cfg l X) as (_ & _ & Hk) end.
+    { intros y ty. simpl. rewrite lookup_fmap. intros (ty0 & Hy0 & _)%fmap_Some. by eapply Hb. }
+    erewrite Hk; [|simpl; rewrite lookup_fmap, Hx; reflexivity]. intros [= <-] Hw. exfalso. revert Hw. by repeat case_match.
+Qed.
+
+Lemma vstep_woken cfg s it x t t' : SvInv cfg s → v_thr s !! x = Some t → st_pc t = VWait →
+  v_thr (vstep cfg s it) !! x = Some t' → st_pc t' = VWoken →
+  ∃ sid n k z lt, st_op t = SLock sid n k z lt ∧ slive (vstep cfg s it) n k.
+Proof.
+  intros HI Hx Hpc Hx' Hpc'.
+  assert (∃ tid, it = VRun tid) as [tid ->].
+  { destruct it as [| tid | | | | |]; eauto; exfalso;
+      (eapply (vstep_pc_norun cfg s _ x t t' HI) in Hx' as [? _]; [congruence|by intros|done]). }
+  destruct (v_thr s !! tid) as [t0|] eqn:Ht0.
+  - rewrite (vstep_run_lookup cfg s tid t0 (vi_not_crashed _ _ HI) Ht0) in *.
+    destruct (vrun_thread_woken cfg tid t0 s x t t' (svinv_bounded _ _ HI) Ht0 Hx Hpc Hx' Hpc') as (n & a & Ha & Hq & Hl).
+    destruct (proj1 (vi_queue _ _ HI n a x Ha) Hq) as (tx & sid & k & z & lt & Htx & Hop & _). simplify_eq.
+    rewrite (key_of_thr_lock _ _ _ _ _ _ _ _ Hx Hop) in Hl. eauto 8.
+  - exfalso. unfold vstep in Hx'. rewrite (vi_not_crashed _ _ HI), Ht0 in Hx'. simplify_eq. congruence.
 Qed.
